@@ -105,6 +105,18 @@ CHECKS = {
             'lowest multipliers/frequencies, and over aspect ratios 0.2..5, bending-stiffness ratios and compression ratios for the '
             'bounds; convergence asserted once the series resolves the half-waves of the mode',
             'closed forms use the reference laminate model for D; eigenvalues from dense solvers and from analysis.lb/freq', '3 C15'),
+    'C16': ('Hypothesis-generated shells; oracles: Hessian of the surface integral of the package own linear strain field (central '
+            'differences of ConeCyl.strain, Gauss x periodic trapezoid, Richardson in the section count for cones), kernel-level '
+            'differential cone(0) vs cylinder, iso vs general model, algebraic laws of kG0 and of the edge-restraint matrix',
+            'generated-input search over all 20 importable shell models x cylinders/cones x laminates x series orders x loads x edge '
+            'stiffnesses; kernel defects found are matched per (claim, model) by signature predicates and replayed from the corpus',
+            'the strain field itself is trusted for the energy oracle (it is what the statement prescribes); kernels are pre-built', '3 C16'),
+    'C17': ('Hypothesis-generated states; package-only oracle: Richardson finite-difference Jacobian of calc_fint (exact for the cubic '
+            'internal force on a fixed point set); invariants: symmetry, fint(0)=0, small-state limit, thread-count independence',
+            'generated-input search over the 12 NL-capable shell models x cylinders/cones x laminates x states up to 3 thicknesses x '
+            'trapezoid/Simpson grids x 1..8 threads x imperfection on/off; the four models whose tangent is not the Jacobian are '
+            'matched by per-model findings, the other eight agree to 1e-8 of the non-linear part',
+            'difference quotients are limited by the rounding of k0*c with 1e8 edge penalties (stated floor)', '3 C17'),
     'C18': ('Hypothesis-generated shells and load sets; virtual-work oracle against the package own displacement field; dense '
             'deletion/insertion reference for the partition book-keeping; linear-algebra oracle for static()',
             'generated-input search over 16 static-capable models, cylinders and cones from every admissible pair of (r1,r2,H,L), point '
@@ -116,6 +128,13 @@ CHECKS = {
             'generated-input search over flat / w-only / cylindrical panels, both flow directions, coefficients given directly or '
             'through Mach number, restrained and unrestrained flow edges, placement, and stiffened bays',
             'gamma applies to curved panels only (statement); the damping coefficient derived inside calc_kA is not observable', '3 C19'),
+    'C20': ('generated operation sequences (histories) interpreted on one shared object; model-based oracle: each answer must equal '
+            'the first answer of a fresh twin object with the same definition; invariants: caller arrays unchanged, thread count irrelevant',
+            'generated-input search over sequences of up to 8-12 public calls (matrices incl. placed and state-dependent ones, force vectors, '
+            'lb/freq/static, field recovery with drawn thread counts, plots) on Panel (4 models), PanelAssembly, StiffPanelBay and '
+            'ConeCyl (12 models); first-call failures and history dependence are both violations',
+            'documented refusals and solver preconditions are accepted outcomes when fresh and shared objects agree; data races need a '
+            'controlled schedule which this technique does not own (thread counts varied only)', '3 C20'),
 }
 
 ALL = ['C%02d' % i for i in range(1, 21)]
